@@ -30,4 +30,4 @@ Extraction "model.ml"
   rc_new_ck rc_roll_ck rc_push_ck frc_new_ck frc_roll_ck frc_push_ck
   spec_digest_exec sums
   m_signature m_delta m_patch m_greedy lits out_len
-  HubExec.hub_exec HubExec.wire_exec HubSeq.refused.
+  HubExec.hub_exec HubExec.wire_exec HubSeq.refused HubExec.sync_exec.
